@@ -1,17 +1,10 @@
 """Rewrites MANIFEST.json from the registry below (run: /venv/bin/python -m harness.manifest)."""
 import json, os
 V = os.path.dirname(os.path.dirname(os.path.abspath(__file__)))
-CLAIMED = {
- "C10": dict(
-   text="Machine-checked theorems (Coq 8.16.1) about an executable Gallina model of Snapper/Snap/TimingMap over exact rationals: "
-        "nearest-allowed-fraction, within 1/192, idempotence for every input and every table satisfying the structural obligations "
-        "(re-checked on the table regenerated from the live Snapper each run); the model is tied to the code by in-Coq correspondence "
-        "(implementation executed on fractions.Fraction, exact equality) plus the integration oracle evaluated on implementation outputs.",
-   note="Trusted: Coq kernel+VM, harness generator/serialiser, gen_tables translator; binary64 rounding measured (rounded stream, tol 1e-6 ms) not proved; "
-        "theorems are 'Closed under the global context'.",
-   technique="Coq proof over executable model + vm_compute correspondence against the implementation",
-   design="4/C10"),
-}
+import importlib, sys
+sys.path.insert(0, V)
+CLAIMED_IDS = ["C10"]
+CLAIMED = {pid: importlib.import_module(f"harness.props.{pid.lower()}").MANIFEST for pid in CLAIMED_IDS}
 def main():
     props = [json.loads(l) for l in open(os.path.join(V, "properties.jsonl"))]
     m = json.load(open(os.path.join(V, "MANIFEST.json")))
@@ -26,7 +19,7 @@ def main():
                 "property_id": pid,
                 "quick_cmd": f"bin/check {pid} --tier quick",
                 "thorough_cmd": f"bin/check {pid} --tier thorough",
-                "evidence_file": f"evidence/{pid}.json",
+                "evidence_file": f"/verif/evidence/{pid}.json",
                 "replay_cmd_template": f"bin/check {pid} --replay {{path}}",
                 "engine": "coq-model",
                 "level_claimed": {"category": "proof", "text": c["text"], "design_ref": c["design"]},
